@@ -56,7 +56,12 @@ Proof.
   destruct (split_indices key (eff_threshold t) (eff_total t n) rnd (eff_bounds t n) Hn) as [shares [Hs' [_ [Hl _]]]].
   rewrite Hs in Hs'. inversion Hs'; subst shares.
   unfold receive. pose proof (eff_bounds t n).
-  assert (E : (m_threshold m <=? 0) || (zlen (m_shards m) <? m_threshold m) = false) by lia. rewrite E, Hk.
+  assert (E : (m_threshold m <=? 0) || (zlen (m_shards m) <? m_threshold m) = false) by lia.
+  assert (V : validate_shards m = true).
+  { unfold validate_shards. rewrite E. cbn [negb andb]. revert Hk. unfold combine.
+    destruct (zlen (m_shards m) <? m_threshold m); [discriminate|].
+    destruct (has_dup (map s_index (firstn (Z.to_nat (m_threshold m)) (m_shards m)))); [discriminate | reflexivity]. }
+  rewrite V, Hk. cbn [negb].
   rewrite Hh, Hi, Hno, cryptomanager_roundtrip, Hha, list_eqb_refl. reflexivity.
 Qed.
 
@@ -70,7 +75,9 @@ Theorem receive_sound m c p : receive m c = Val (Some p) ->
             p = apply k (m_nonce m) c (derive_counter (m_id m)) /\ sha256 p = m_hash m /\
             0 < m_threshold m <= zlen (m_shards m).
 Proof.
-  unfold receive. destruct ((m_threshold m <=? 0) || (zlen (m_shards m) <? m_threshold m)) eqn:E; [discriminate|].
+  unfold receive. destruct (validate_shards m) eqn:V; cbn [negb]; [|discriminate].
+  assert (E : (m_threshold m <=? 0) || (zlen (m_shards m) <? m_threshold m) = false).
+  { unfold validate_shards in V. destruct ((m_threshold m <=? 0) || (zlen (m_shards m) <? m_threshold m)); [discriminate | reflexivity]. }
   destruct (combine (m_shards m) (m_threshold m)) as [k|e]; [|discriminate].
   unfold decrypt_with_key. destruct (list_eqb (sha256 _) (m_hash m)) eqn:Hh; [|discriminate].
   intros H. inversion H; subst. exists k. split; [reflexivity|]. split; [reflexivity|].
@@ -81,8 +88,21 @@ Qed.
 Theorem receive_refuses_mismatch m c k : combine (m_shards m) (m_threshold m) = Val k ->
   sha256 (apply k (m_nonce m) c (derive_counter (m_id m))) <> m_hash m -> receive m c = Val None.
 Proof.
-  intros Hk Hne. unfold receive. destruct (_ || _); [reflexivity|]. rewrite Hk. unfold decrypt_with_key.
+  intros Hk Hne. unfold receive. destruct (negb (validate_shards m)); [reflexivity|]. rewrite Hk. unfold decrypt_with_key.
   destruct (list_eqb (sha256 _) (m_hash m)) eqn:E; [apply list_eqb_spec in E; contradiction | reflexivity].
+Qed.
+
+(* a manifest whose shard indices are bytes never makes replica import throw: the shard check excludes exactly the sets
+   Shamir::combine refuses (C35: the exception would end the session thread, and with it the process) *)
+Theorem receive_never_throws m c : Forall byte_ok (map s_index (m_shards m)) -> forall e, receive m c <> Throw e.
+Proof.
+  intros Hb e. unfold receive. destruct (validate_shards m) eqn:V; cbn [negb]; [|discriminate].
+  unfold validate_shards in V. apply andb_true_iff in V. destruct V as [V1 V2].
+  assert (Ht : 0 <= m_threshold m <= zlen (m_shards m)) by lia.
+  assert (Hn : NoDup (map s_index (firstn (Z.to_nat (m_threshold m)) (m_shards m)))).
+  { apply has_dup_spec. destruct (has_dup _); [discriminate | reflexivity]. }
+  destruct (combine_total_on_good_sets (m_shards m) (m_threshold m) Ht Hb Hn) as [k [Ek _]]. rewrite Ek.
+  destruct (decrypt_with_key k (m_id m) c (m_nonce m)) as [p|]; [destruct (list_eqb _ _)|]; discriminate.
 Qed.
 
 (* changing ciphertext bytes changes the decryption at exactly those bytes (stream cipher): a corrupted replica of an
